@@ -19,6 +19,7 @@ import MW.Lemmas.ApiSafe
 import MW.Lemmas.ApiStall
 import MW.Lemmas.ApiBackedEx
 import MW.Lemmas.ApiBackedLedger2
+import MW.Lemmas.ApiGhostEx
 import MW.Gen.Sites
 namespace MW.Props.C19
 open MW.Model.Api MW.Lemmas.ApiSound MW.Lemmas.ApiSafe
@@ -298,5 +299,77 @@ theorem no_stall_backed (O : Oracle) (n : Nat) (σ : State) (hs : ScriptBacked O
   no_stall_loop O n σ (contract_script_C16 O hs) hk
 
 example : ScriptBacked backedOracle := MW.Lemmas.ApiBacked.backedOracle_backed.script
+
+-- ==================================================================== Round 5: the follower tail the driver runs, ghost state
+
+/-- FOLLOWER TOTALITY for the statement the differential driver executes on `recvtx` (the hook VerifProcessTx enters
+    proccessReceivedTx below its sync-height gate): `recvTxTail` - the term `f_proccessReceivedTx` ends with - never
+    panics, for every oracle, budget and state. (Block deliveries run `.invoke Fn.processConnectedBlock`, worker steps
+    `.invoke Fn.asyncImport` / `.invoke Fn.asyncRemove`: `follower_total`.) -/
+theorem recv_tail_total (O : Oracle) (n : Nat) (σ : State) (kind text : String) :
+    run prog O n recvTxTail σ ≠ .error (.panic kind text) :=
+  skeleton_safe prog exports imports closed closed_ok recvTxTail checkFuel (by decide +kernel) O n σ kind text
+
+/-- GHOST STATE, general theorem (every table, oracle, budget, statement, state). Let `G` be a predicate on skeleton
+    states that reads only the variables `gv` and is re-established by the oracle's answer at every call node of `L`
+    (`Ghost`); let the statement and the bodies of the positions `R` it can invoke keep `gv` intact except through the
+    nodes of `L` (`frameOK`, a syntactic check). Then a run from a `G`-state ends in a `G`-state, and if it ends in
+    `Fault.contract g` it passed a call node of `g` in a state that satisfies `G` and whose answer broke the contract:
+    the invariant is carried by `run`, so a contract may rely on what an EARLIER call of the same run established. -/
+theorem ghost_run_carries (P : Prog) (O : Oracle) (G : State → Prop) (gv : List Var) (L : List CallNode) (R : List Nat)
+    (hG : MW.Lemmas.ApiGhost.Ghost O G gv L)
+    (hP : ∀ f, R.contains f = true → ∀ body, P f = some body → MW.Lemmas.ApiGhost.frameOK gv L R body = true)
+    (n : Nat) (s : Stmt) (σ : State) (hs : MW.Lemmas.ApiGhost.frameOK gv L R s = true) (h0 : G σ) :
+    (∀ fl, run P O n s σ = .ok fl → G (MW.Lemmas.ApiGhost.flowState fl)) ∧
+    (∀ g, run P O n s σ = .error (.contract g) →
+      ∃ c, MW.Lemmas.ApiContracts.Occurs P s c ∧ c.1 = g ∧ ∃ τ, G τ ∧ ¬ MW.Lemmas.ApiContracts.HoldsAt O c τ) := by
+  have h := MW.Lemmas.ApiGhost.run_carries hG hP n s σ hs h0
+  refine ⟨fun fl hr => ?_, fun g hr => ?_⟩
+  · rw [hr] at h; exact h
+  · rw [hr] at h; exact h
+
+/-- the ghost frame of `prevTx` / `prevTx.TxOut` covers every entry point except the follower's block / transaction
+    path (filterTx assigns `prevTx = &bro.MsgTx`): all 33 gRPC handlers, worker, asyncImport, asyncRemove, … -/
+theorem ghost_reach_roots :
+    (roots.filter (fun k => match fnOf k with | some f => !MW.Lemmas.ApiGhostUtxo.reachU.contains f | none => true)) =
+      ["masswallet/ntfnshandler.go:handle", "masswallet/ntfnshandler.go:NtfnsHandler.processConnectedBlock",
+       "masswallet/ntfnshandler.go:NtfnsHandler.proccessReceivedTx", "masswallet/wallet.go:WalletManager.Start"] := by
+  decide +kernel
+
+/-- CONTRACT (ledger + ghost state; was class a-): `w.txStore.ExistsUtxo` - `oerr == nil → flags != nil ∧
+    vout < len(prevTx.TxOut)`, where the length was read by an EARLIER call of the run. Ghost state: which transaction a
+    non-nil `prevTx` denotes (`W.obj`); run invariant `GU W`: the shadow variable `prevTx.TxOut` holds the number of
+    outputs of that transaction. If every call that writes `prevTx` / `prevTx.TxOut` keeps the shadow right (`Shadow`:
+    in Go the length IS read off the pointer) and ExistsUtxo is answered by MW.Model.ApiLedger.existsUtxo - the function
+    the driver executes - for the outpoint (id of that transaction, `vout`) over a store satisfying C01's `Inv` for a
+    `ChainValid` chain, then no run of a gRPC handler (any position of `reachU`) from a `GU`-state (the initial state of a
+    request is one) ends in `Fault.contract "w.txStore.ExistsUtxo"`. PARTIAL: for an UNMINED credit the bound is the
+    world hypothesis `W.pend` (see `contract_ledger_ExistsUtxo_full`); for a mined credit it is proved from C01
+    (`creditBlock_created`) and `W.ids` (an id names one transaction). -/
+theorem contract_ledger_ExistsUtxo_partial (W : MW.Lemmas.ApiGhostUtxo.UtxoWorld) (O : Oracle)
+    (hS : MW.Lemmas.ApiGhostUtxo.Shadow O W) (hU : MW.Lemmas.ApiGhostUtxo.UtxoBacked O W)
+    (r : Nat) (hr : MW.Lemmas.ApiGhostUtxo.reachU.contains r = true) (n : Nat) (σ : State)
+    (h0 : MW.Lemmas.ApiGhostUtxo.GU W σ) :
+    run prog O n (.invoke r) σ ≠ .error (.contract "w.txStore.ExistsUtxo") :=
+  MW.Lemmas.ApiGhostUtxo.no_ExistsUtxo_fault hS hU r hr n σ h0
+
+/-- what is missing for the full statement: the world hypothesis `pend` as a consequence of the ledger / pending
+    invariants (an unmined credit belongs to an existing output of the pending transaction of that id). C09's `PendWF`
+    relates the unmined-inputs bucket to the pending set, not yet the unmined-credits bucket. -/
+def contract_ledger_ExistsUtxo_full : Prop :=
+  ∀ (c : MW.Model.Ledger.Ctx) (s : MW.Model.Ledger.Store) (chain : List MW.Model.Ledger.Block),
+    MW.Lemmas.Ledger.Inv c s chain → ∀ (tx : String) (i : Nat) (t : MW.Model.Ledger.Tx),
+      (MW.AMap.get s.pendCred (tx, i)).isSome = true → MW.AMap.get s.pending tx = some t → i < t.outs.length
+
+/-- non-vacuity: a world over the store of C01's worked reorganisation history and an oracle meet `Shadow` and
+    `UtxoBacked`; the initial state satisfies the invariant; and on that store the model function does find the
+    coinbase credit (c1, 0) and nothing at (c1, 1) -/
+example : MW.Lemmas.ApiGhostUtxo.Shadow MW.Lemmas.ApiGhostUtxo.ghostOracle MW.Lemmas.ApiGhostUtxo.exWorld ∧
+    MW.Lemmas.ApiGhostUtxo.UtxoBacked MW.Lemmas.ApiGhostUtxo.ghostOracle MW.Lemmas.ApiGhostUtxo.exWorld ∧
+    MW.Lemmas.ApiGhostUtxo.GU MW.Lemmas.ApiGhostUtxo.exWorld (fun _ => 0) ∧
+    MW.Model.ApiLedger.existsUtxo MW.Lemmas.ApiBacked.exStore "w1" "c1" 0 = 0 ∧
+    MW.Model.ApiLedger.existsUtxo MW.Lemmas.ApiBacked.exStore "w1" "c1" 1 = 2 :=
+  ⟨MW.Lemmas.ApiGhostUtxo.ghostOracle_shadow, MW.Lemmas.ApiGhostUtxo.ghostOracle_backed,
+   MW.Lemmas.ApiGhostUtxo.GU_init _, MW.Lemmas.ApiGhostUtxo.exUtxo0, MW.Lemmas.ApiGhostUtxo.exUtxo1⟩
 
 end MW.Props.C19
